@@ -203,7 +203,7 @@ Section Bdf.
               (change_d d order factor, h * factor, 0, false)
             else (d, h, neq, lucur) in
           let h_signed := direction * h in
-          let x_new := x + h_signed in
+          let x_new := if over then xend else x + h_signed in
           if eqb O (x + L L0_1 * abs O h_signed) x then
             inr (mkR StepSizeTooSmall (direction * h) (s_stats s) x y (s_log s) (s_jaclog s) (s_cb s))
           else
